@@ -1,7 +1,7 @@
 (* C05 - c-inference = skeptical inference over all c-representations. *)
 From InfOCF Require Import Core Tol CInf PEnt Form Model CModel ThmC ThmPostInt.
 From InfOCFProps Require Import Ex.
-From InfOCF Require Import PyLib PyInt TieMax TieC TieCBase.
+From InfOCF Require Import PyLib PyInt TieMax TieC TieCBase TieCInf.
 From InfOCFGen Require Import SrcC.
 From Coq Require Import ZArith.
 
@@ -72,6 +72,34 @@ Theorem C05_source_query_constraint_is_non_acceptance : forall n D, NoDup (map k
 Proof. exact src_query_is_not_accept. Qed.
 Print Assumptions C05_source_query_constraint_is_non_acceptance.
 
+(* ... and CInference._inference itself (the self-fulfilling test, the solver loaded with the base CSP that the generated
+   translate() returned plus the generated query constraints, the final `not satcheck`): with an SMT solver that decides
+   solvability of the integer constraints, the generated function answers True exactly when the model's c-inference holds,
+   hence - on a base that is not self-fulfilling - exactly when EVERY c-representation accepts the query. *)
+Theorem C05_source_inference_is_model : forall n D, NoDup (map kz D) -> (forall i, i < length D -> vMin n D i <> []) ->
+  forall isolve, (forall l, exists b, isolve l = Return b /\ (b = true <-> exists sg, csp_sat sg l = true)) ->
+  forall q weakly, exists base,
+  py_CInference_translate n (bb_of D) (vM n D) (fM n D) = Return base /\
+  exists b, py_CInference_inference n isolve (bb_of D) tt base (nf_of D) q weakly tt = Return b /\ (b = true <-> c_infer_prop n D q).
+Proof. exact tie_c_inference. Qed.
+Print Assumptions C05_source_inference_is_model.
+Theorem C05_source_inference_is_skeptical : forall n D, NoDup (map kz D) -> (forall i, i < length D -> vMin n D i <> []) ->
+  forall isolve, (forall l, exists b, isolve l = Return b /\ (b = true <-> exists sg, csp_sat sg l = true)) ->
+  forall q weakly, exists base,
+  py_CInference_translate n (bb_of D) (vM n D) (fM n D) = Return base /\
+  exists b, py_CInference_inference n isolve (bb_of D) tt base (nf_of D) q weakly tt = Return b /\
+            (selffulfilling n D = true -> b = false) /\
+            (selffulfilling n D = false -> (b = true <-> c_spec_prop n D q)).
+Proof. exact src_c_inference_skeptical. Qed.
+Print Assumptions C05_source_inference_is_skeptical.
+
 Example birds_c : check_counter 4 birds [1;2;2;1] q_fp = true /\ search_counter 4 birds 3 q_wp = None
   /\ selffulfilling 4 birds = false.
 Proof. vm_compute. repeat split. Qed.
+(* the premises about the base are satisfiable: the birds base has distinct keys and every conditional has a verifying pattern
+   (the solver oracle is a parameter: its assumed behaviour is recorded in the trusted base, DESIGN.md section 4) *)
+Example birds_source_premises : NoDup (map kz birds) /\ (forall i, i < length birds -> vMin 4 birds i <> []).
+Proof. split.
+  - vm_compute. repeat constructor; simpl; intuition discriminate.
+  - intros i Hi. assert (H: forallb (fun i => negb (is_nil (vMin 4 birds i))) (seq 0 (length birds)) = true) by (vm_compute; reflexivity).
+    eapply forallb_forall in H; [|apply in_seq; split; [apply Nat.le_0_l|exact Hi]]. intros E. rewrite E in H. discriminate. Qed.
